@@ -1,6 +1,6 @@
 (* property number -> op code -> itree -> itree *)
 From Coq Require Import List Arith NArith Bool.
-From AV Require Import Base.ITree Model.D00 Model.D01 Model.D04 Model.D06 Model.D07.
+From AV Require Import Base.ITree Model.D00 Model.D01 Model.D04 Model.D06 Model.D07 Model.D15.
 Import ListNotations.
 
 Definition dispatch (prop op : nat) (t : itree) : itree :=
@@ -10,5 +10,6 @@ Definition dispatch (prop op : nat) (t : itree) : itree :=
   | 4 => d04 op t
   | 6 => d06 op t
   | 7 => d07 op t
+  | 15 => d15 op t
   | _ => bad_input
   end.
